@@ -17,6 +17,7 @@ import (
 	"seata.apache.org/seata-go/pkg/client"
 	"seata.apache.org/seata-go/pkg/datasource/sql/undo"
 	"seata.apache.org/seata-go/pkg/tm"
+	slog "seata.apache.org/seata-go/pkg/util/log"
 )
 
 //go:embed seatago.yml.tmpl
@@ -114,6 +115,10 @@ func init() {
 				return
 			}
 			client.InitPath(p)
+			if os.Getenv("VERIF_QUIET") != "" {
+				// only errors are logged (public logging API): keeps write syscalls for the coordinator socket
+				slog.InitWithOption(filepath.Join(wd, "seata-"+os.Getenv("VERIF_NAME")+".log"), slog.ErrorLevel)
+			}
 		})
 		if ierr != nil {
 			return nil, ierr
